@@ -5,6 +5,8 @@ import FitModel.DecoderApiListener
 import FitModel.Raw
 import Driver.Util
 import Driver.ValCodec
+import Driver.DecApiShow
+import Driver.DecApiStd
 import Driver.Raw
 -- @family decapi Drv.DecApi.hDecApi
 -- @family dechist Drv.DecApi.hDecHist
@@ -19,52 +21,6 @@ implementation's answer (C03: no panic / hang, sticky error; C07: every answer t
 namespace Drv.DecApi
 open Drv Fit.DecApi Fit.Value
 
-def errName : Err → String
-  | .eof => "eof" | .notFit => "notfit" | .crc => "crc" | .defMissing => "defmissing"
-  | .baseType => "basetype" | .ctx => "ctx" | .other => "other"
-
-def flagsOf (f : DField) : String :=
-  let s := (if f.array then "a" else "") ++ (if f.known then "n" else "") ++ (if f.isBool then "b" else "") ++
-    (if f.expanded then "x" else "")
-  if s.isEmpty then "-" else s
-
-def showField (f : DField) : String := s!"F{f.num}:{hexByte f.bt}:{flagsOf f}:{printValue f.value}"
-
-def showMsg (m : Msg) : String :=
-  "M" ++ toString m.num ++ "h" ++ toString m.header ++ "{" ++ ";".intercalate (m.fields.map showField) ++ "|" ++
-    ";".intercalate (m.devs.map fun d => s!"D{d.idx}.{d.num}:{printValue d.value}") ++ "}"
-
-def showDef (d : MesgDef) : String :=
-  s!"D{d.header}.{d.reserved}.{d.arch}.{d.mesgNum}(" ++ ",".intercalate (d.fields.map fun f => s!"{f.num}.{f.size}.{f.bt}") ++
-    ")(" ++ ",".intercalate (d.devs.map fun f => s!"{f.num}.{f.size}.{f.idx}") ++ ")"
-
-def showEvent : Event → String
-  | .mesgDef d => showDef d
-  | .mesg m => showMsg m
-
-def fnv (h : UInt64) (s : String) : UInt64 :=
-  s.foldl (fun h c => (h ^^^ c.toNat.toUInt64) * 0x100000001b3) h
-
-def digest (items : List String) (verbose : Bool) : String :=
-  if verbose then "[" ++ "&".intercalate items ++ "]"
-  else hexN 16 (items.foldl (fun h it => fnv (fnv h it) "\n") (0xcbf29ce484222325 : UInt64)).toNat
-
-def showHdr (h : Hdr) : String := s!"{h.size}.{h.protoVer}.{h.profileVer}.{h.dataSize}.{h.crc}"
-
-def showOut (verbose : Bool) : Op → Out → String
-  | _, .fit f => s!"ok:{showHdr f.hdr}.{f.crc}:{f.msgs.length}:{digest (f.msgs.map showMsg) verbose}"
-  | _, .header h => "ok:" ++ showHdr h
-  | _, .fileId f =>
-    let pn := if f.productName.isEmpty then "-" else hex f.productName
-    s!"ok:{f.type}.{f.manufacturer}.{f.product}.{f.serial}.{f.timeCreated}.{f.number}.{pn}.{f.unknown}"
-  | _, .done => "ok"
-  | _, .bool b => if b then "t" else "f"
-  | _, .integrity n none => s!"ok:{n}"
-  | _, .integrity n (some e) => s!"err:{errName e}:{n}"
-  | _, .err e => "err:" ++ errName e
-  | _, .panic => "panic"
-  | _, .hang => "hang"
-
 def showTok (verbose : Bool) (op : Op) (r : Out × List Event) : String :=
   let evs := r.2.map showEvent
   showOut verbose op r.1 ++
@@ -75,6 +31,9 @@ structure Line where
   o : Opts
   ops : List Op
   streams : List (List Nat)
+  /-- `f:std` with `exp1`: the decoder's default configuration — answered by the composition of (C) with expansion off
+  and C05's expansion model over the real profile (Driver/DecApiStd.lean) -/
+  dflt : Bool := false
 
 def parseBit (s pre : String) : Option Bool :=
   match stripPrefix? s pre with
@@ -123,11 +82,6 @@ def parseFacEntry (s0 : String) : Option FacEntry :=
     pure ⟨mn, fnum, ⟨true, bt, flags.contains 'b', flags.contains 'a', flags.contains 'c', comps⟩⟩
   | _ => none
 
-/-- `factory.StandardFactory()` as the decoder reads it with component expansion off (regenerated table) -/
-def stdFactory : Factory :=
-  Fit.Gen.DecApi.stdFactoryRaw.map fun (m, n, bt, fl) =>
-    ⟨m, n, ⟨true, bt, fl / 2 % 2 == 1, fl % 2 == 1, fl / 4 % 2 == 1, []⟩⟩
-
 def parseFactory (s : String) : Option Factory :=
   if s == "-" then some [] else if s == "std" then some stdFactory else (s.splitOn ";").mapM parseFacEntry
 
@@ -156,7 +110,12 @@ def parseOp (o : Opts) (streams : List (List Nat)) (s : String) : Option Op :=
   | "nxt" => some .next
   | "ci" => some .checkIntegrity
   | _ => do
-    let k ← (stripPrefix? s "rst").bind String.toNat?
+    -- `rst<k>` or `rst<k>/<size>` (Reset with another read buffer size: not observable on the exact-n reader of this model)
+    let spec ← stripPrefix? s "rst"
+    let k ← match spec.splitOn "/" with
+      | [k] => k.toNat?
+      | [k, sz] => if sz.toNat?.isSome then k.toNat? else none
+      | _ => none
     if k < 1 then none
     let b ← streams[k]?
     pure (.reset o b)
@@ -182,7 +141,7 @@ def parseLine (args : List String) : Option Line := do
   let o ← parseOpts (← optS) fac
   let streams := (← b) :: rs.toList
   let ops ← ((← opsS).splitOn ",").mapM (parseOp o streams)
-  pure ⟨verbose, o, resolveOps (Api.fresh o (streams.headD [])) ops, streams⟩
+  pure ⟨verbose, o, resolveOps (Api.fresh o (streams.headD [])) ops, streams, (← facS) == "std" && o.exp⟩
 
 /-- tokens up to and including the first panic / hang -/
 def cut : List (Op × Out × List Event) → List (Op × Out × List Event)
@@ -191,7 +150,15 @@ def cut : List (Op × Out × List Event) → List (Op × Out × List Event)
     | .panic | .hang => [x]
     | _ => x :: cut xs
 
+/-- default configuration: `Fit.DecApi.Default.run` — (C) with the standard factory and expansion off, then C05's expansion
+of every message (FitModel/DecoderApiDefault.lean) -/
+def answerDflt (l : Line) : String :=
+  " ".intercalate (Drv.DecApiStd.answer l.verbose l.o (l.streams.headD []) l.ops)
+
+def specToksDflt (l : Line) : List String := Drv.DecApiStd.specToks l.verbose l.o (l.streams.headD []) l.ops
+
 def answer (l : Line) : String :=
+  if l.dflt then answerDflt l else
   let res := run (Api.fresh l.o (l.streams.headD [])) l.ops
   " ".intercalate ((cut (l.ops.zip res)).map fun (op, r) => showTok l.verbose op r)
 
@@ -205,10 +172,17 @@ def tokErr (t : String) : Option String :=
 
 /-- no fake success: where the specification (new decoders on the sequence's bytes — for which `C03_no_fake_success`
 is proved) demands an error of `Decode` / `Discard`, the implementation must not answer `ok` -/
+def exclRun : Spec → List Op → List Bool
+  | _, [] => []
+  | p, op :: ops => p.excluded op :: exclRun (specStep p op).1 ops
+
 def fakeSuccess (l : Line) (toks : List String) : Option Nat :=
   let spec := specRun (Spec.fresh l.o (l.streams.headD [])) l.ops
-  (((l.ops.zip spec).zip toks).zipIdx.find? (fun (((op, sp), t), _) =>
-    match op, sp with
+  -- operations in the class of KF-C07-4 (a predecessor's last record overran its data size: where the current sequence
+  -- starts then depends on how the predecessor was consumed) are C07's subject, not a fake success of this sequence
+  let excl := exclRun (Spec.fresh l.o (l.streams.headD [])) l.ops
+  ((((l.ops.zip spec).zip excl).zip toks).zipIdx.find? (fun ((((op, sp), ex), t), _) =>
+    !ex && match op, sp with
     | .decode, some (.err _, _) | .decodeCtx _, some (.err _, _) | .decodeCtxAt _, some (.err _, _) | .discard, some (.err _, _) =>
       t.startsWith "ok"
     | _, _ => false)).map (·.2)
@@ -241,6 +215,10 @@ def propC03 (l : Line) (impl : String) : String :=
 def propC07 (l : Line) (impl : String) : String :=
   let toks := impl.splitOn " "
   if toks.length != l.ops.length then "fail:answer-count"
+  else if l.dflt then
+    match ((specToksDflt l).zip toks).zipIdx.find? (fun ((sp, t), _) => sp != "*" && sp != t) with
+    | some ((sp, _), i) => s!"fail:op{i}:demanded=" ++ sp
+    | none => "ok"
   else
     let spec := specRun (Spec.fresh l.o (l.streams.headD [])) l.ops
     match ((l.ops.zip spec).zip toks).zipIdx.find? (fun (((op, sp), t), _) =>
@@ -252,6 +230,7 @@ def propC07 (l : Line) (impl : String) : String :=
     | none => "ok"
 
 def specAnswer (l : Line) : String :=
+  if l.dflt then " ".intercalate (specToksDflt l) else
   " ".intercalate (((l.ops.zip (specRun (Spec.fresh l.o (l.streams.headD [])) l.ops))).map fun (op, sp) =>
     match sp with | some r => showTok l.verbose op r | none => "*")
 
